@@ -43,6 +43,66 @@ add("C06", "E1-envx", "exploration",
     "DESIGN.md 5/C06")
 
 
+E1NOTE = ("harness closures are the only user functions; transparent in-process wrappers on Problem.__call__, "
+          "TrustRegion and _build_result (no source change); numpy/scipy trusted; numeric alphabet of mc/alpha.py")
+
+add("C01", "E1-envx", "exploration",
+    "bounded-exhaustive enumeration of executions of the real minimize() over all bound-pattern assignments x x0 "
+    "positions x objectives x constraints x scale x nb_points, plus deviation-bounded (d<=1) NaN/inf answers; "
+    "oracle on every point seen in user space (exact) and on every solver trial point before projection",
+    "Decides exactly-in-bounds in user space and 'by construction' (trial points and interpolation points inside the "
+    "solver's box up to rounding, evaluated where the solver believes) on every execution of the enumerated space.",
+    E1NOTE, "DESIGN.md 5/C01")
+add("C02", "E1-envx", "exploration",
+    "bounded-exhaustive enumeration of executions over the cross product demanded by the quantifier (scale x fixed "
+    "variables x constraint kinds x limit kinds x bounds form x constraint form x forced termination), "
+    "OptimizeResult compared with the harness log",
+    "res.x bit-equal to an evaluated point, res.fun bit-equal to the value logged there, res.maxcv equal to the "
+    "user-space violation recomputed from the logged constraint values, for every enumerated statement of a problem "
+    "and every termination status.",
+    E1NOTE, "DESIGN.md 5/C02")
+add("C03", "E2-opseq + E1-envx", "model_checking",
+    "explicit-state breadth-first search to a fixed point over evaluation histories fed to the real Problem filter "
+    "(42 operations, filter sizes unbounded/1/2/3), lock-step reference model, conformance replay of states on fresh "
+    "objects; plus deviation-bounded exploration of real runs end to end",
+    "All reachable filter states for the value alphabet are visited and best_eval is compared with the reference of "
+    "C03 after every transition for three penalties; end-to-end runs with NaN/inf at every evaluation index are "
+    "compared with the same reference over the harness log.",
+    "filter state = three lists of the Problem (validated by replaying sampled states from scratch); reference "
+    "conventions documented in DESIGN.md 5/C03", "DESIGN.md 5/C03")
+add("C05", "E1-envx", "exploration",
+    "bounded-exhaustive enumeration of executions over every maxfev from 1 to nb_points+4 x maxiter x nb_points x "
+    "history sizes relative to nfev, evaluations counted three independent ways",
+    "Budgets and counters are compared on every enumerated execution, including pure feasibility problems and every "
+    "budget value around the number of interpolation points.",
+    E1NOTE, "DESIGN.md 5/C05")
+add("C07", "E1-envx", "exploration",
+    "bounded-exhaustive enumeration of executions ending in every documented way (every sampling index x every kind "
+    "of early ending, every main-loop ending), predicate table derived from the docstring",
+    "Each reported status is checked against the documented situation using harness-side ground truth (logs, "
+    "options, resolution at exit); only the stated direction ('only when') is demanded.",
+    E1NOTE + "; the status table is parsed from minimize.__doc__", "DESIGN.md 5/C07")
+add("C08", "E1-envx", "fault_enumeration",
+    "fault enumeration: every NaN/+-inf/huge answer at every evaluation index of every root problem (deviation bound "
+    "1, bound 2 on a slice), region faults, degenerate data, special boxes x constraints x callbacks, malformed calls",
+    "Every enumerated faulty execution must return a well-formed OptimizeResult (or raise exactly ValueError/TypeError "
+    "for malformed arguments), hand only finite barrier-clipped values to the models and never label a NaN result "
+    "successful; hangs are caught by a per-run watchdog.",
+    E1NOTE, "DESIGN.md 5/C08")
+add("C09", "E1-envx", "fault_enumeration",
+    "enumeration of every (evaluation index, stopping request) injection on recorded truthful runs; oracle on the "
+    "call log after the trigger and on status/nfev/returned point",
+    "For each base run every evaluation index receives each stopping request (target, feasibility, callback, pairs); "
+    "the run must end there. The matrix request x step kind is required to be fully covered.",
+    E1NOTE, "DESIGN.md 5/C09")
+add("C20", "E1-envx", "exploration",
+    "bounded-exhaustive enumeration over problems x 11 callback kinds x behaviours, with a differential oracle: the "
+    "run stopped at call k must return what the passive run's callback received at call k, for every k",
+    "Callback convention, count, position, point and value are checked on every execution; stop-at-k is enumerated "
+    "for every k of every base run; an overwriting callback must not change the run.",
+    E1NOTE, "DESIGN.md 5/C20")
+
+
 def main():
     man = {
         "version": 1,
